@@ -205,7 +205,7 @@ def run(ctx: lib.Ctx) -> None:
                 '(BLS on a small share: py_ecc is slow), random chain ids. non-trivial = a group that must be signed; distinct = distinct '
                 '(curve, key, chain id, group). In addition a sweep of 1500 P-256, 1500 secp256k1 and 300 Ed25519 signatures over a counter-swept '
                 'transfer, judged by the oracle only (value-dependent signature defects)')
-    keys = {cv: [make_key(rng, cv) for _ in range(2 if cv != b'BL' else 1)] for cv in CURVES}
+    keys = {cv: [make_key(rng, cv) for _ in range(3 if cv != b'BL' else 2)] for cv in CURVES}
     import concurrent.futures
     pool = concurrent.futures.ThreadPoolExecutor(max_workers=1)
     fut_tables = pool.submit(tables, ctx)
@@ -222,7 +222,17 @@ def run(ctx: lib.Ctx) -> None:
         for kinds in (['transaction'], ['endorsement']):
             cases.append({'curve': cv, 'key': keys[cv][0], 'chain_id': G.b58('Net', G.rand_bytes(rng, 4)),
                           'group': {'branch': G.rand_block_hash(rng), 'contents': [G.rand_content(rng, k) for k in kinds]}})
-    n_total, n_bls = ctx.n(260, 5000), 0
+    # byte-identical messages signed by different keys in one process (a failing_noop and a consensus group do not mention the
+    # signer, so every key signs the very same bytes, twice): each signature must verify under its own key
+    shared = [{'branch': G.rand_block_hash(rng), 'contents': [G.rand_content(rng, 'failing_noop')]},
+              {'branch': G.rand_block_hash(rng), 'contents': [G.rand_content(rng, 'endorsement')]}]
+    shared_chain = G.b58('Net', G.rand_bytes(rng, 4))
+    for rnd in range(2):
+        for cv in CURVES:
+            for key in (keys[cv] if rnd == 0 else list(reversed(keys[cv]))):
+                for g in (shared if cv != b'BL' else shared[:1]):
+                    cases.append({'curve': cv, 'key': key, 'chain_id': shared_chain, 'group': json.loads(json.dumps(g))})
+    n_total, n_bls = len(cases) + ctx.n(230, 5000), 0
     while len(cases) < n_total:
         c = gen_case(rng, keys, allow_bls=n_bls < ctx.n(6, 120))
         n_bls += c['curve'] == b'BL'
